@@ -1,5 +1,5 @@
 (* C14 — stores round-trip unchanged through a canonical format cargo-vet itself accepts. *)
-Require Import Base Serde.
+Require Import Base Extracted Serde.
 Require Import SerdeProofs.
 Local Open Scope N_scope.
 
@@ -25,6 +25,19 @@ Theorem C14_tidy_is_canonical : forall (A : Type) (leb : A -> A -> bool),
   forall m, tidy_map A leb (tidy_map A leb m) = tidy_map A leb m.
 Proof. exact tidy_map_idempotent. Qed.
 
+(* the keys of the [policy] table: `name` or `name:version`, the version written as the WHOLE VetVersion
+   (semver text, then `@git:<rev>`) — a fact re-read from serialization.rs on every run.  Reading a key back
+   gives the same (name, version), so two different policy entries can never collapse into one key. *)
+Theorem C14_policy_key_roundtrip : forall name ver,
+  no_chr COLON name = true -> (forall v, ver = Some v -> no_chr AT (vv_semver v) = true) ->
+  pkey_decode (pkey_encode name ver) = Some (name, ver).
+Proof. intros. apply pkey_roundtrip; [reflexivity|assumption|assumption]. Qed.
+Theorem C14_policy_keys_never_collide : forall n1 v1 n2 v2,
+  no_chr COLON n1 = true -> no_chr COLON n2 = true ->
+  (forall v, v1 = Some v -> no_chr AT (vv_semver v) = true) -> (forall v, v2 = Some v -> no_chr AT (vv_semver v) = true) ->
+  pkey_encode n1 v1 = pkey_encode n2 v2 -> n1 = n2 /\ v1 = v2.
+Proof. intros. eapply pkey_injective; eauto. Qed.
+
 (* PARTIAL: the text level — how toml_edit prints and toml parses strings (multi-line,
    quotes, control characters), the inline/wrapped layout pass and the `# name (login)`
    comment — is library code below this model; it is exercised on every run by writing,
@@ -41,3 +54,5 @@ Print Assumptions C14_exemption_roundtrip.
 Print Assumptions C14_wildcard_entry_roundtrip.
 Print Assumptions C14_criteria_entry_roundtrip.
 Print Assumptions C14_tidy_is_canonical.
+Print Assumptions C14_policy_key_roundtrip.
+Print Assumptions C14_policy_keys_never_collide.
